@@ -1,6 +1,6 @@
 (* C19 — state estimation: property theorems (proofs in C19/Proofs.v) *)
 From Coq Require Import ZArith QArith List Bool Permutation Lia Lqa.
-From PPV Require Import Base.QN Base.QC C19.Model C19.Proofs.
+From PPV Require Import Base.QN Base.QC C19.Model C19.Proofs C19.Jacobian.
 Import ListNotations.
 Open Scope Q_scope.
 
@@ -126,3 +126,98 @@ Example C19_full_rank_nonvacuous :
   (forall m, In m ms -> 0 < wgt m) /\ (forall m, In m ms -> res m == 0) /\
   (forall d', (forall m, In m ms -> hd 2 m d' == 0) -> forall k, (k < 2)%nat -> nth k d' 0 == 0).
 Proof. exact full_rank_nonvacuous. Qed.
+
+(* ------------------------------------------------------------------ the Jacobian rows of a branch are the derivatives of h
+   Model: C19.Model.dS_dth_s/dS_dth_e/dS_dvm_s/dS_dvm_e (= _dSbr_dv, real part = dP row, imaginary part = dQ row) and
+   dIm_dth/dIm_dvm (= _dImbr_dV), for the "own side" bus s and the other end e of one branch (from side: ys = yff,
+   ye = yft; to side: ys = ytt, ye = ytf).  S_side ys ye Vs Ve = Vs*conj(ys*Vs + ye*Ve) is the measurement function
+   of create_hx.  Polar state of a bus: pol = (vm, cos th, sin th), the pair being an oracle; an angle increment delta is
+   given by the oracle pair (cd, sd) = (cos delta, sin delta); move p cd sd dv is the state (th + delta, vm + dv).
+   DS is the real-linear differential of S in rectangular coordinates; lin p sd dv = sd*(j*V) + dv*(V/|V|) is the
+   first-order displacement of V and rho the rest of it. *)
+
+(* rectangular form: S is a quadratic form; the expansion is exact and the remainder is the quadratic form of the increment *)
+Theorem C19_S_rectangular_expansion : forall ys ye Vs Ve dVs dVe,
+  S_side ys ye (Cadd Vs dVs) (Cadd Ve dVe) ==c
+  Cadd (Cadd (S_side ys ye Vs Ve) (DS ys ye Vs Ve dVs dVe)) (S_side ys ye dVs dVe).
+Proof. exact S_expand. Qed.
+Print Assumptions C19_S_rectangular_expansion.
+
+Theorem C19_S_remainder_is_quadratic : forall ys ye t dVs dVe,
+  S_side ys ye (Cscale t dVs) (Cscale t dVe) ==c Cscale (t * t) (S_side ys ye dVs dVe).
+Proof. exact S_quadratic. Qed.
+Print Assumptions C19_S_remainder_is_quadratic.
+
+(* the four entries of a _dSbr_dv row are the differential applied to the tangent vectors of the polar parametrisation:
+   d/dth_k -> j*V_k, d/dvm_k -> V_k/|V_k| *)
+Theorem C19_dSbr_entries_are_partial_derivatives : forall ys ye s e,
+  dS_dth_s ys ye s e ==c DS ys ye (Vof s) (Vof e) (Cmul Cj (Vof s)) C0 /\
+  dS_dth_e ys ye s e ==c DS ys ye (Vof s) (Vof e) C0 (Cmul Cj (Vof e)) /\
+  dS_dvm_s ys ye s e ==c DS ys ye (Vof s) (Vof e) (Vn s) C0 /\
+  dS_dvm_e ys ye s e ==c DS ys ye (Vof s) (Vof e) C0 (Vn e).
+Proof.
+  intros. split; [apply dS_dth_s_is_DS | split; [apply dS_dth_e_is_DS | split; [apply dS_dvm_s_is_DS | apply dS_dvm_e_is_DS]]].
+Qed.
+Print Assumptions C19_dSbr_entries_are_partial_derivatives.
+
+(* the polar parametrisation: exact displacement of V, the moved pair is again a unit pair, and rho is of second order
+   (every term carries sd*sd or dv*sd) *)
+Theorem C19_polar_displacement : forall p cd sd dv,
+  Vof (move p cd sd dv) ==c Cadd (Cadd (Vof p) (lin p sd dv)) (rho p cd sd dv).
+Proof. exact move_expand. Qed.
+Print Assumptions C19_polar_displacement.
+
+Theorem C19_polar_move_keeps_unit : forall p cd sd dv,
+  unit (pc p) (ps p) -> unit cd sd -> unit (pc (move p cd sd dv)) (ps (move p cd sd dv)).
+Proof. exact move_unit. Qed.
+Print Assumptions C19_polar_move_keeps_unit.
+
+Theorem C19_polar_rest_is_second_order : forall p cd sd dv, unit cd sd -> ~ 1 + cd == 0 ->
+  rho p cd sd dv ==c
+  Cadd (Cscale (- (sd * sd) / (1 + cd)) (Cadd (Vof p) (Cscale dv (Vn p)))) (Cscale (dv * sd) (Cmul Cj (Vn p))).
+Proof. exact rho_second_order. Qed.
+Print Assumptions C19_polar_rest_is_second_order.
+
+(* power-flow rows: h(x (+) d) - h(x) - J*d equals, exactly, the differential of the second-order rest plus the quadratic
+   form of the whole displacement - no first-order term is left, for every state, every increment, every branch *)
+Theorem C19_dSbr_first_order_exact : forall ys ye s e cds sds dvs cde sde dve,
+  let s' := move s cds sds dvs in let e' := move e cde sde dve in
+  Csub (Csub (S_side ys ye (Vof s') (Vof e')) (S_side ys ye (Vof s) (Vof e))) (Jd_S ys ye s e sds sde dvs dve) ==c
+  Cadd (DS ys ye (Vof s) (Vof e) (rho s cds sds dvs) (rho e cde sde dve))
+       (S_side ys ye (Cadd (lin s sds dvs) (rho s cds sds dvs)) (Cadd (lin e sde dve) (rho e cde sde dve))).
+Proof. exact S_polar_taylor. Qed.
+Print Assumptions C19_dSbr_first_order_exact.
+
+(* current-magnitude rows: J*d is the linear form re(conj(I)/|I| * dI_lin) ... *)
+Theorem C19_dImbr_entries_are_partial_derivatives : forall ys ye s e m sds sde dvs dve,
+  Jd_I ys ye s e m sds sde dvs dve ==
+  re (Cmul (Inorm ys ye s e m) (I_side ys ye (lin s sds dvs) (lin e sde dve))).
+Proof. exact Jd_I_is_linear_form. Qed.
+Print Assumptions C19_dImbr_entries_are_partial_derivatives.
+
+(* ... and with the oracles m = |I(x)|, m' = |I(x (+) d)| (constrained by their squares) the deviation m' - m - J*d times
+   the positive number m' + m is a sum of second-order terms (|dI|^2, (J*d + r2)*(m' - m), r2*(m' + m) with r2 linear in rho) *)
+Theorem C19_dImbr_first_order_exact : forall ys ye s e cds sds dvs cde sde dve m m',
+  let s' := move s cds sds dvs in let e' := move e cde sde dve in
+  let I := I_side ys ye (Vof s) (Vof e) in
+  let dI := I_side ys ye (Cadd (lin s sds dvs) (rho s cds sds dvs)) (Cadd (lin e sde dve) (rho e cde sde dve)) in
+  ~ m == 0 -> m * m == cnorm2 I -> m' * m' == cnorm2 (I_side ys ye (Vof s') (Vof e')) ->
+  let Jd := Jd_I ys ye s e m sds sde dvs dve in
+  let r2 := re (Cmul (Inorm ys ye s e m) (I_side ys ye (rho s cds sds dvs) (rho e cde sde dve))) in
+  (m' - m - Jd) * (m' + m) == cnorm2 dI - (Jd + r2) * (m' - m) + r2 * (m' + m).
+Proof. exact I_polar_taylor. Qed.
+Print Assumptions C19_dImbr_first_order_exact.
+
+(* non-vacuity: a series branch y = 3-4j between V_s = 1.1*(3/5+4/5j) and V_e = 1.0*(3/5+4/5j), both angles advanced by
+   (cos, sin) = (12/13, 5/13), vm_s raised by 0.1: unit pairs, |I| = 1/2 before and 1 after, 1 + cd <> 0 *)
+Example C19_jacobian_nonvacuous :
+  let ys := mkC 3 (-4) in let ye := mkC (-3) 4 in
+  let s := {| vm := 11 # 10; pc := 3 # 5; ps := 4 # 5 |} in let e := {| vm := 1; pc := 3 # 5; ps := 4 # 5 |} in
+  let s' := move s (12 # 13) (5 # 13) (1 # 10) in let e' := move e (12 # 13) (5 # 13) 0 in
+  unit (pc s) (ps s) /\ unit (12 # 13) (5 # 13) /\ ~ 1 + (12 # 13) == 0 /\
+  ~ (1 # 2) == 0 /\ (1 # 2) * (1 # 2) == cnorm2 (I_side ys ye (Vof s) (Vof e)) /\
+  1 * 1 == cnorm2 (I_side ys ye (Vof s') (Vof e')) /\
+  ~ Jd_S ys ye s e (5 # 13) (5 # 13) (1 # 10) 0 ==c C0.
+Proof.
+  vm_compute. repeat split; try (intro H; discriminate H). intros [H _]. discriminate H.
+Qed.
